@@ -62,6 +62,7 @@ pub(crate) mod proofs {
             assert!(b.0 == v,                                                "deref: the value written at creation");
             assert!(DROPS.load(SeqCst) == d0,                                "clone: nothing destroyed");
             assert!(pa::free_count(&pool) == s.free - 1,                     "clone: pool untouched");
+            kani::cover!(true, "end of harness reachable (vacuity guard)");
         }
 
         // @props C14 C05 C03
@@ -87,6 +88,7 @@ pub(crate) mod proofs {
                 expected[(s.free - 1) as usize] = s.perm[0];
                 assert!(pa::free_list_is(&pool, s.origin.wrapping_add(1), &expected, s.free), "drop (last): slot returned to the pool exactly once (free' = free.push(id))");
             }
+            kani::cover!(true, "end of harness reachable (vacuity guard)");
         }
 
         // @props C14 C03
@@ -99,6 +101,7 @@ pub(crate) mod proofs {
             let mut i = 0;
             while i < c { let copy = std::mem::ManuallyDrop::new(unsafe { a.raw_copy() }); assert!(inner_ptr(&copy) == inner_ptr(&a), "raw_copy: same control block"); i += 1; }
             assert!(a.references_count() == k + c,                           "increment_references(c) + c raw copies: count == number of live handles");
+            kani::cover!(true, "end of harness reachable (vacuity guard)");
         }
 
         // @props C14 C03 C05
@@ -117,6 +120,7 @@ pub(crate) mod proofs {
             drop(c);
             assert!(DROPS.load(SeqCst) == d0 + 1,                            "third dropped: destroyed exactly once");
             assert!(pa::free_count(&pool) == s.free,                         "pool free count restored");
+            kani::cover!(true, "end of harness reachable (vacuity guard)");
         }
 
         // @props C14 C08
@@ -134,6 +138,7 @@ pub(crate) mod proofs {
                 }
                 None => assert!(s.free == 0,                                 "new: None iff the pool is exhausted"),
             }
+            kani::cover!(true, "end of harness reachable (vacuity guard)");
         }
     } )* } }
     arc_proofs! {
